@@ -19,6 +19,8 @@ pub enum Part {
     L(Vec<u8>),
     /// numeric slot that takes the magnitude under test
     B,
+    /// the same as a big-endian 32-bit field (binary formats that store big-endian numbers)
+    Be,
 }
 
 #[derive(Clone, Debug, Serialize, Deserialize)]
@@ -49,6 +51,7 @@ fn render(t: &Tmpl, mag: i64) -> Vec<u8> {
                     out.extend_from_slice(mag.to_string().as_bytes());
                 }
             }
+            Part::Be => out.extend_from_slice(&(mag as u32).to_be_bytes()),
         }
     }
     out
@@ -418,6 +421,16 @@ impl C03 {
         // hex-defined macros can contain DECINVM (ESC [ n * z = 1B5B..2A7A) and so invoke themselves / each other
         add("macro-hex-self-recursive", "stream", "", vec![lit(b"\x1bP1;0;1!z781B5B312A7A\x1b\\\x1b[1*z")]);
         add("macro-hex-self-recursive-twice", "stream", "", vec![lit(b"\x1bP1;0;1!z1B5B312A7A1B5B312A7A\x1b\\\x1b[1*z")]);
+        // fan-out k: the body prints one character and invokes itself k times; only a budget shared by all nested
+        // invocations keeps this from costing k^depth replays
+        for k in [3usize, 4, 8, 16] {
+            let mut def = b"\x1bP1;0;1!z58".to_vec();
+            for _ in 0..k {
+                def.extend_from_slice(b"1B5B312A7A");
+            }
+            def.extend_from_slice(b"\x1b\\\x1b[1*z");
+            add(&format!("macro-hex-self-recursive-fanout-{k}"), "stream", "", vec![lit(&def)]);
+        }
         add("macro-hex-mutually-recursive", "stream", "", vec![lit(b"\x1bP1;0;1!z611B5B322A7A\x1b\\\x1bP2;0;1!z621B5B312A7A\x1b\\\x1b[1*z")]);
         add("macro-hex-doubling-chain", "stream", "", vec![lit(
             b"\x1bP1;0;1!z0A0A0A0A\x1b\\\x1bP2;0;1!z1B5B312A7A1B5B312A7A\x1b\\\x1bP3;0;1!z1B5B322A7A1B5B322A7A\x1b\\\x1bP4;0;1!z1B5B332A7A1B5B332A7A\x1b\\\x1bP5;0;1!z1B5B342A7A1B5B342A7A\x1b\\\x1bP6;0;1!z1B5B352A7A1B5B352A7A\x1b\\\x1bP7;0;1!z1B5B362A7A1B5B362A7A\x1b\\\x1bP8;0;1!z1B5B372A7A1B5B372A7A\x1b\\\x1bP9;0;1!z1B5B382A7A1B5B382A7A\x1b\\\x1bP10;0;1!z1B5B392A7A1B5B392A7A\x1b\\\x1bP11;0;1!z1B5B31302A7A1B5B31302A7A\x1b\\\x1bP12;0;1!z1B5B31312A7A1B5B31312A7A\x1b\\\x1bP13;0;1!z1B5B31322A7A1B5B31322A7A\x1b\\\x1bP14;0;1!z1B5B31332A7A1B5B31332A7A\x1b\\\x1bP15;0;1!z1B5B31342A7A1B5B31342A7A\x1b\\\x1bP16;0;1!z1B5B31352A7A1B5B31352A7A\x1b\\\x1b[16*z\x1b[16*z\x1b[16*z",
@@ -483,6 +496,22 @@ impl C03 {
         add("font-psf2-headersize", "font", "", psf2([Some(0), None, Some(0), Some(4), Some(16), Some(16), Some(8)]));
         add("font-psf2-length-x-charsize-0", "font", "", psf2([Some(0), Some(96), Some(0), None, Some(0), Some(16), Some(8)]));
         add("font-psf2-all", "font", "", psf2([Some(0), Some(32), Some(0), None, None, None, None]));
+        // --- Tundra position record (command 1, big-endian row and column): not produced by the engine's writer, so the
+        // seed-file header mutations never reach it
+        let tnd = |row: Option<u32>, col: Option<u32>| -> Vec<Part> {
+            let mut parts = vec![Part::L(b"\x18TUNDRA24\x01".to_vec())];
+            for f in [row, col] {
+                match f {
+                    Some(v) => parts.push(Part::L(v.to_be_bytes().to_vec())),
+                    None => parts.push(Part::Be),
+                }
+            }
+            parts.push(Part::L(b"AB".to_vec()));
+            parts
+        };
+        add("file-tundra-position-row", "file:tnd", "", tnd(None, Some(0)));
+        add("file-tundra-position-column", "file:tnd", "", tnd(Some(0), None));
+        add("file-tundra-position-both", "file:tnd", "", tnd(None, None));
         self.specials = v;
     }
 }
@@ -624,7 +653,7 @@ impl C03 {
     }
 
     fn exec(&mut self, ctx: &mut Ctx, t: &Tmpl, class: &str) {
-        let has_slot = t.parts.iter().any(|p| matches!(p, Part::B));
+        let has_slot = t.parts.iter().any(|p| matches!(p, Part::B | Part::Be));
         let mut runs: Vec<(i64, Run)> = Vec::new();
         let mags: Vec<i64> = if has_slot {
             let mut m = MAGS.to_vec();
@@ -676,7 +705,7 @@ impl Prop for C03 {
         "C03"
     }
     fn rule(&self) -> &'static str {
-        "a case is a template with numeric slots, executed with every slot at max(W,H)+1, 2^16, 10^6 and 2^31-1 on the real engine with the work counter (hook H1), the counting allocator and the nesting guard (H2) armed. Oracles: ticks <= 16(n+1)WH*max(W,H) for streams (64*65536*(n+1) for fonts/files, 4096(n+1) for sixel), peak live allocation <= 64MiB+4096n, nesting <= 16, cpu <= 2s, and saturation: ticks/peak at a larger magnitude <= 2x those at the smaller one. Templates: the complete CSI table (63 finals x 8 intermediates x parameter vectors of length 0..=6 over {0,1,size,BIG}) x 3 sizes x 3 prepared screens (quick: lengths <=3 complete + sample), the same table with top/bottom margins set and with top/bottom + left/right margins + origin mode set (parameter vectors of length <=2 quick / <=4 thorough), margins/rectangles/tab/colour functions, DCS macro definitions (text, hex repeat groups, self/mutual recursion, doubling chains), sixel raster/repeat headers (through the terminal and directly), Avatar repeat, CTerm:Font / PSF1 / PSF2 header fields. distinct_nontrivial = distinct (family, screen, size, log2 tick profile over the magnitudes) fingerprints"
+        "a case is a template with numeric slots, executed with every slot at max(W,H)+1, 2^16, 10^6 and 2^31-1 on the real engine with the work counter (hook H1), the counting allocator and the nesting guard (H2) armed. Oracles: ticks <= 16(n+1)WH*max(W,H) for streams (64*65536*(n+1) for fonts/files, 4096(n+1) for sixel), peak live allocation <= 64MiB+4096n, nesting <= 16, cpu <= 2s, and saturation: ticks/peak at a larger magnitude <= 2x those at the smaller one. Templates: the complete CSI table (63 finals x 8 intermediates x parameter vectors of length 0..=6 over {0,1,size,BIG}) x 3 sizes x 3 prepared screens (quick: lengths <=3 complete + sample), the same table with top/bottom margins set and with top/bottom + left/right margins + origin mode set (parameter vectors of length <=2 quick / <=4 thorough), margins/rectangles/tab/colour functions, DCS macro definitions (text, hex repeat groups, self/mutual recursion with fan-out 1..=16, doubling chains), sixel raster/repeat headers (through the terminal and directly), Avatar repeat, CTerm:Font / PSF1 / PSF2 header fields, Tundra position records (big-endian row / column). distinct_nontrivial = distinct (family, screen, size, log2 tick profile over the magnitudes) fingerprints"
     }
     fn meta(&self, _ctx: &Ctx) -> Value {
         json!({"floor_evaluations": 5000, "floor_distinct": 300, "watchdog_s": 60, "watchdog_is_violation": true, "plain_pass": "quick",
